@@ -123,4 +123,105 @@ theorem metadataA_ext (env : Env) (e : Ext) (key value : Text) (h : bracketedKey
   · show (e.has Gen.EXT_MODES && bracketedKey env.cs key) = false
     rw [h, Bool.and_false]
 
+/-! ### ADVANCED_UNITS: the unit checks, and the whole fold -/
+
+@[simp] theorem Env.withExt_ext (env : Env) (e : Ext) : (env.withExt e).ext = e := rfl
+@[simp] theorem Env.withExt_cs (env : Env) (e : Ext) : (env.withExt e).cs = env.cs := rfl
+
+theorem ingrUnitChecks_ext (env : Env) (e : Ext) (i : PIngredient α) (q : Quantity (ScalableValue α)) (idxs : List Nat) :
+    ingrUnitChecks (env.withExt e) i q idxs = ingrUnitChecks env i q idxs := rfl
+
+theorem resolveReference_ext (env : Env) (e : Ext) (c : String) (inh : Nat) (ex : List (Str × Modifiers))
+    (name : Str) (mods : Modifiers) (l ml : Span) :
+    resolveReference (α := α) (env.withExt e) c inh ex name mods l ml = resolveReference env c inh ex name mods l ml := rfl
+
+theorem optQuantityOf_ext (env : Env) (e : Ext) (q : Option (Loc (PQuantity α))) (b : Bool) :
+    optQuantityOf (env.withExt e) q b = optQuantityOf env q b := by
+  cases q <;> rfl
+
+theorem quantityOf_ext (env : Env) (e : Ext) (q : Loc (PQuantity α)) (b : Bool) :
+    quantityOf (env.withExt e) q b = quantityOf env q b := rfl
+
+theorem cookwareA_ext (env : Env) (e : Ext) (input : Str) (lc : Loc (PCookware α)) :
+    cookwareA (env.withExt e) input lc = cookwareA env input lc := by
+  unfold cookwareA cwBuild cwResolve
+  have : ∀ q, optValueOf (α := α) (env.withExt e) q = optValueOf env q := by
+    intro q; cases q <;> rfl
+  simp only [this, resolveReference_ext, Env.withExt_cs]
+
+section adv
+variable (env : Env) (e : Ext) (hadv : e.has Gen.EXT_ADVANCED_UNITS = env.ext.has Gen.EXT_ADVANCED_UNITS)
+include hadv
+
+theorem ingrRefChecks_ext (input : Str) (li : Loc (PIngredient α)) (igr : Ingredient (ScalableValue α))
+    (refTo : Nat) (defn : Ingredient (ScalableValue α)) (defLoc : Loc (PIngredient α)) :
+    ingrRefChecks (env.withExt e) input li igr refTo defn defLoc = ingrRefChecks env input li igr refTo defn defLoc := by
+  unfold ingrRefChecks
+  simp only [Env.withExt_ext, hadv, ingrUnitChecks_ext]
+
+theorem ingredientA_ext (input : Str) (li : Loc (PIngredient α)) :
+    ingredientA (env.withExt e) input li = ingredientA env input li := by
+  unfold ingredientA ingrBuild ingrRegular
+  simp only [optQuantityOf_ext, resolveReference_ext, ingrRefChecks_ext env e hadv, Env.withExt_cs]
+
+theorem timerA_ext (lt : Loc (PTimer α)) : timerA (env.withExt e) lt = timerA env lt := by
+  have h1 : ∀ q r, timerQuantityChecks (α := α) (env.withExt e) q r = timerQuantityChecks env q r := by
+    intro q r
+    unfold timerQuantityChecks
+    simp only [Env.withExt_ext, hadv]
+    rfl
+  have h2 : ∀ tq, timerQuantity (α := α) (env.withExt e) tq = timerQuantity env tq := by
+    intro tq
+    cases tq with
+    | none => rfl
+    | some q =>
+      unfold timerQuantity
+      simp only [h1, quantityOf_ext]
+  unfold timerA
+  simp only [h2, Env.withExt_cs]
+
+theorem inBlockComponent_ext (input : Str) (ev : Ev α) :
+    inBlockComponent (env.withExt e) input ev = inBlockComponent env input ev := by
+  have h : inStepComponent (env.withExt e) input ev = inStepComponent env input ev := by
+    unfold inStepComponent
+    cases ev <;> simp only [ingredientA_ext env e hadv, cookwareA_ext, timerA_ext env e hadv]
+  unfold inBlockComponent
+  simp only [h]
+
+end adv
+
+/-- the event uses no syntax that an analysis gate reinterprets: a `>>` key is not `[…]`, a text
+    is not empty and has no ASCII digit -/
+def evCoreA (cs : CharSpec) : Ev α → Bool
+  | .metadata k _ => !bracketedKey cs k
+  | .text t => textCore t
+  | _ => true
+
+theorem processEvent_ext (env : Env) (e : Ext)
+    (hadv : e.has Gen.EXT_ADVANCED_UNITS = env.ext.has Gen.EXT_ADVANCED_UNITS) (input : Str) (ev : Ev α)
+    (h : evCoreA env.cs ev = true) :
+    processEvent (env.withExt e) input ev = processEvent env input ev := by
+  cases ev <;> first
+    | rfl
+    | (unfold processEvent; exact inBlockComponent_ext env e hadv input _)
+    | (unfold processEvent
+       simp only [evCoreA, Bool.not_eq_true'] at h
+       exact metadataA_ext env e _ _ h)
+    | (unfold processEvent inStepText
+       simp only [evCoreA] at h
+       simp only [inStepTextStep_ext env e _ _ h])
+
+theorem parseEventsLoop_ext (env : Env) (e : Ext)
+    (hadv : e.has Gen.EXT_ADVANCED_UNITS = env.ext.has Gen.EXT_ADVANCED_UNITS) (input : Str) (evs : List (Ev α))
+    (h : evs.all (evCoreA env.cs) = true) (s : Col α) :
+    parseEventsLoop (env.withExt e) input evs s = parseEventsLoop env input evs s := by
+  induction evs generalizing s with
+  | nil => rfl
+  | cons ev rest ih =>
+    simp only [List.all_cons, Bool.and_eq_true] at h
+    have hp := processEvent_ext env e hadv input ev h.1
+    cases ev <;> first
+      | rfl
+      | (simp only [parseEventsLoop]; rw [hp]; exact ih h.2 _)
+
 end Cook
